@@ -299,3 +299,7 @@ func AwaitQuiescence() { time.Sleep(200 * time.Millisecond) }
 
 // Go starts a harness (system) goroutine: it is not counted by LiveGoroutines.
 func Go(f func()) { go f() }
+
+// Same reports whether two interface values are the same value (identical concrete value or the
+// same symbolic variable).
+func Same(a, b any) bool { return a == b }
